@@ -498,7 +498,9 @@ def _check_case(spec, df, table, formula, intercept, terms, rank, output):
                 j = bad[0]
                 term_scale = _scale_of_column(terms, table, j)
                 r = _ratio_class(X[:, j], M[:, j] / term_scale)
-                cls = tag or _scale_cls(r, [term_scale])
+                cls = _scale_cls(r, [term_scale])
+                if tag and not cls.startswith("literal-scale"):
+                    cls = tag
                 fails.append(("C02.e2e.rankoff.kronecker-values", cls,
                               f"column {names[j]!r}: got {X[:, j].tolist()} expected {M[:, j].tolist()} (ratio {r})",
                               f"j = names.index({names[j]!r})\nassert numpy.allclose(col(j), {M[:, j].tolist()!r}, rtol=1e-9, atol=1e-12), col(j)\n"))
@@ -529,7 +531,9 @@ def _check_case(spec, df, table, formula, intercept, terms, rank, output):
                 break
             if not any(numpy.allclose(X[:, j], s * base, rtol=RTOL, atol=ATOL, equal_nan=True) for s in cands):
                 r = _ratio_class(X[:, j], base)
-                cls = tag or _scale_cls(r, cands)
+                cls = _scale_cls(r, cands)
+                if tag and not cls.startswith("literal-scale"):
+                    cls = tag
                 fails.append(("C02.e2e.rankon.label-product", cls,
                               f"column {label!r}: got {X[:, j].tolist()} expected {[float(x) for x in cands[0] * base]} "
                               f"(admissible term scales {cands}; observed/unscaled-product ratio {r})",
